@@ -8,6 +8,7 @@ use std::path::Path;
 use std::rc::Rc;
 
 thread_local! {
+    static SIBS: RefCell<Vec<(u64, Option<std::sync::Arc<sudachi::dic::dictionary::JapaneseDictionary>>)>> = RefCell::new(Vec::new());
     static CACHE: RefCell<Vec<(u64, Rc<BuiltWorld>)>> = RefCell::new(Vec::new());
 }
 
@@ -37,4 +38,52 @@ pub fn get_world(spec: &WorldSpec, work: &Path) -> Result<Rc<BuiltWorld>, String
         c.push((h, rc.clone()));
     });
     Ok(rc)
+}
+
+/// A second dictionary over the same compiled lexicons, grammar and plugin configuration whose character definition
+/// lacks every second code-point range (those characters fall back to DEFAULT). Used by TokSim for tokenizers that
+/// share result lists with tokenizers of the main dictionary (`MorphemeList::collect_results` accepts a tokenizer
+/// over any dictionary). None when that definition does not load with the world's unk.def / plugins.
+pub fn get_sibling(spec: &WorldSpec, built: &BuiltWorld) -> Option<std::sync::Arc<sudachi::dic::dictionary::JapaneseDictionary>> {
+    use sudachi::dic::storage::Storage;
+    let h = spec_hash(spec);
+    if let Some(x) = SIBS.with(|c| c.borrow().iter().find(|(k, _)| *k == h).map(|(_, w)| w.clone())) {
+        return x;
+    }
+    let mut spec2 = spec.clone();
+    let mut out = String::new();
+    let mut i = h as usize;
+    for l in spec.char_def.lines() {
+        if l.starts_with("0x") {
+            i += 1;
+            if i % 2 == 0 && !l.contains("SPACE") {
+                continue;
+            }
+        }
+        out.push_str(l);
+        out.push('\n');
+    }
+    spec2.char_def = out;
+    let dir = built.dir.join("sib");
+    let r = crate::harness::catch(|| -> Result<_, String> {
+        crate::dictfac::write_resources(&spec2, &dir)?;
+        let cfg = crate::dictfac::make_config(&spec2, &dir)?;
+        crate::dictfac::load_dict(
+            &cfg,
+            Storage::Owned(built.sys_bytes.clone()),
+            built.user_bytes.iter().map(|b| Storage::Owned(b.clone())).collect(),
+        )
+    });
+    let sib = match r {
+        Ok(Ok(d)) => Some(std::sync::Arc::new(d)),
+        _ => None,
+    };
+    SIBS.with(|c| {
+        let mut c = c.borrow_mut();
+        if c.len() >= 3 {
+            c.remove(0);
+        }
+        c.push((h, sib.clone()));
+    });
+    sib
 }
